@@ -27,7 +27,9 @@ type c14Case struct {
 	YieldEvery int `json:"yield_every"`
 }
 
-var c14Excluded int
+var c14Excluded, c14ExcludedSwap int
+
+const swapVsNodeRemovalShape = "swap-confirm-vs-node-removal"
 
 func genC14(t *rapid.T) c14Case {
 	conf := harness.GenConf(t, harness.ConfOpts{MaxDepth: 2, Limits: true, MaxApps: true, Quotas: true, Templates: true, FifoOnly: true, Preemption: rapid.Bool().Draw(t, "preemption"), QuotaPreempt: true})
@@ -56,6 +58,16 @@ func genC14(t *rapid.T) c14Case {
 	for i := 0; i < nNodes; i++ {
 		c.Nodes = append(c.Nodes, harness.AsyncOp{Kind: "addnode", Node: fmt.Sprintf("node-%d", i), Res: harness.Res{"memory": rapid.Int64Range(8, 30).Draw(t, "mem"), "vcore": rapid.Int64Range(8, 30).Draw(t, "cpu")}})
 	}
+	// listed finding swap-confirm-vs-node-removal: a case has gang applications or node removals, not both
+	gangAllowed, rmnodeAllowed := true, true
+	if harness.Excluded(swapVsNodeRemovalShape) {
+		if rapid.Bool().Draw(t, "gang-or-node-removal") {
+			rmnodeAllowed = false
+		} else {
+			gangAllowed = false
+		}
+		c14ExcludedSwap++
+	}
 	c.Readers = rapid.IntRange(1, 3).Draw(t, "readers")
 	nClients := rapid.IntRange(3, 6).Draw(t, "clients")
 	for ci := 0; ci < nClients; ci++ {
@@ -73,7 +85,7 @@ func genC14(t *rapid.T) c14Case {
 			k := rapid.IntRange(0, 19).Draw(t, "kind")
 			switch {
 			case (k <= 2 && len(apps) < nApps) || len(apps) == 0:
-				a := &appInfo{id: fmt.Sprintf("app-%d-%d", ci, len(apps)), gang: rapid.IntRange(0, 2).Draw(t, "gang") == 0}
+				a := &appInfo{id: fmt.Sprintf("app-%d-%d", ci, len(apps)), gang: rapid.IntRange(0, 2).Draw(t, "gang") == 0 && gangAllowed}
 				apps = append(apps, a)
 				op := harness.AsyncOp{Kind: "addapp", App: a.id, Queue: rapid.SampledFrom(leaves).Draw(t, "queue"), User: rapid.SampledFrom(harness.Users).Draw(t, "user")}
 				if a.gang {
@@ -103,6 +115,9 @@ func genC14(t *rapid.T) c14Case {
 			case k == 16 && ci == 0:
 				n := fmt.Sprintf("node-%d", rapid.IntRange(0, nNodes-1).Draw(t, "node"))
 				kind := rapid.SampledFrom([]string{"updnode", "drain", "undrain", "rmnode", "addnode"}).Draw(t, "node-op")
+				if kind == "rmnode" && !rmnodeAllowed {
+					kind = "drain"
+				}
 				script = append(script, harness.AsyncOp{Kind: kind, Node: n, Res: harness.Res{"memory": rapid.Int64Range(6, 30).Draw(t, "mem2"), "vcore": rapid.Int64Range(6, 30).Draw(t, "cpu2")}})
 			case k == 17:
 				a := apps[rapid.IntRange(0, len(apps)-1).Draw(t, "app")]
@@ -180,6 +195,9 @@ func TestC14(t *testing.T) {
 		st.AddSteps(ops, 0)
 		for ; c14Excluded > 0; c14Excluded-- {
 			st.Exclude(harness.GroupUsageLostShape)
+		}
+		for ; c14ExcludedSwap > 0; c14ExcludedSwap-- {
+			st.Exclude(swapVsNodeRemovalShape)
 		}
 		if msg != "" {
 			harness.RecordFailure(&harness.Failure{Property: "C14", Check: "C14/async", Message: msg, Size: len(raw), Case: raw})
